@@ -128,9 +128,29 @@ def impl_history(case):
                         ran.append(100 + fid)
                         if traises:
                             raise RuntimeError("cleanup %d" % (100 + fid))
+                    # the generator fixture is handed over in one of the ways user code writes it: plain generator function,
+                    # @fixture-decorated, bound method of a fixture provider object, functools.partial with an argument bound
+                    flavour = (fid + len(adds) + len(out)) % 4
+                    fx = gen
+                    if flavour == 1:
+                        from behave.fixture import fixture as fixture_decorator
+                        fx = fixture_decorator(gen)
+                    elif flavour == 2:
+                        class Provider(object):
+                            def resource(self, context, _g=gen):
+                                value = yield from _g(context)
+                                return value
+                        fx = Provider().resource
+                    elif flavour == 3:
+                        import functools
+
+                        def gen_with(context, tag, _g=gen):
+                            value = yield from _g(context)
+                            return value
+                        fx = functools.partial(gen_with, tag="x")
                     try:
-                        use_fixture(gen, ctx)
-                        out.append(["ok"])
+                        got = use_fixture(fx, ctx)
+                        out.append(["ok"] if got == fid else ["EXC", "use_fixture returned a %s instead of the value the fixture yields (its setup part did not run)" % type(got).__name__])
                     except ValueError:
                         out.append(["setuperr"])
             except Exception as e:      # an internal exception is an observation (O17/O18)
